@@ -227,10 +227,10 @@ CHECKS = {
         design="3/C20",
     ),
     "C19": dict(
-        engine="E2",
+        engine="E1+E2",
         technique="symbolic execution of the real place_and_orient_model3d and of the local model builders (make_Cuboid / Prism / Ellipsoid / "
         "CylinderSegment / Tetrahedron, make_Polyline / make_Circle) over z3 terms with symbolic dimensions, pose, scale and length factor; "
-        "on-surface and full-extent conditions as SMT obligations",
+        "on-surface and full-extent conditions as SMT obligations; CrossHair on get_rot_pos_from_path (which path indices are drawn: clamped to the last pose)",
         text="Bounded symbolic model checking of the geometric core of show(): for all real dimensions and poses every drawn vertex equals "
         "(q*v*scale + p)*length_factor, lies on the surface of the body it depicts (corner of the box, hull circle and base planes, ellipsoid "
         "equation, inner/outer radius at z=+-h/2, the given tetrahedron vertices) and the full extent is attained; current lines pass through "
